@@ -10,6 +10,8 @@ from fractions import Fraction
 
 import numpy as np
 
+from hyverif.core import same_result, scalar_forms
+
 ID = "C14"
 SHARDS = {"quick": 8, "thorough": 16}
 BUDGET = {"quick": 300, "thorough": 1800}
@@ -191,6 +193,14 @@ def run_case(ctx, case):
         if base is None:
             base = (osec, ov, unit, tz)
             judge(ctx, case, stamps, vals, P, maxgap, rainfall, osec, ov)
+            try:
+                osf = call(se, scalar_forms(P, len(stamps)),
+                           scalar_forms(maxgap, len(stamps) + 1), scalar_forms(rainfall))
+                ctx.check("var2h.scalar-forms", same_result(osf.values, out.values),
+                          "var2h|result-depends-on-scalar-type-of-options", case, None)
+            except Exception as e:
+                ctx.check("var2h.scalar-forms", False,
+                          "var2h|raises-on-numpy-scalar-option", case, {"exc": repr(e)})
             if len(stamps) <= 60:
                 ctx.reuse("var2h", lambda: call(se, P, maxgap, rainfall).values, [],
                           out.values.copy(), case)
